@@ -119,6 +119,10 @@ Definition fast_read (w : N) (page : bytes) (n : N) : option (list N) :=
   | _ => None
   end.
 
+(* the view is SIGNED ('int%i' % bit_width): what a stored index of k bytes comes back as *)
+Definition signed_view (k : nat) (v : N) : Z :=
+  if v <? 2 ^ (8 * N.of_nat k - 1) then Z.of_N v else (Z.of_N v - 2 ^ (8 * Z.of_nat k))%Z.
+
 Definition run_idec (d : idec) (w : N) (page : bytes) (n : N) : option (list N) :=
   match d with
   | DFast => fast_read w page n
@@ -131,22 +135,28 @@ Definition run_idec (d : idec) (w : N) (page : bytes) (n : N) : option (list N) 
   | DNone => None
   end.
 
-(* the choice is ADEQUATE for (w, selfmade): the decoder's domain covers the pages that arrive there.
-   own_page: a page fastparquet's own writer produced for this width (encode_dict: one bit-packed run of
-   whole bytes, last group NOT padded, 32-bit codes possible) must take the array view - the generic
-   decoder is proved for bit-packed widths <= 24 only and walks through whole groups of 8. *)
+(* the choice is ADEQUATE for (w, selfmade, one_run): the decoder's domain covers the pages that arrive there.
+   A page fastparquet's own writer produced (encode_dict: one bit-packed run of whole bytes, last group NOT padded,
+   32-bit codes possible) must take the array view - the generic decoder is proved for bit-packed widths <= 24 only
+   and walks through whole groups of 8; any other run structure must NOT take the view. *)
 Definition own_width (w : N) : bool := (w =? 8) || (w =? 16) || (w =? 32).
 
-Definition adequate (w : N) (selfmade : bool) (d : idec) : bool :=
+(* `one_run`: the index block at the cursor is ONE bit-packed run holding at least the page's values (core._is_one_bitpacked_run:
+   the layout the created_by-keyed shortcut assumes; created_by is only a string, a file naming fastparquet may hold any runs) *)
+Definition takes_view (w : N) (selfmade one_run : bool) : bool := selfmade && own_width w && one_run.
+
+Definition adequate (w : N) (selfmade one_run : bool) (d : idec) : bool :=
   match d with
-  | DFast => selfmade && own_width w
+  | DFast => takes_view w selfmade one_run
   | DGeneric a isz => (a =? isz) && ((isz =? 1) || (isz =? 4)) && (0 <? w) && (w <=? 8 * isz)
-                      && negb (selfmade && own_width w)
+                      && negb (takes_view w selfmade one_run)
   | DZeros => w =? 0
   | DNone => false
   end.
 
 Definition widths_0_32 : list N := map N.of_nat (seq 0 33).
 
-Definition dispatch_adequate (f : N -> bool -> idec) : bool :=
-  forallb (fun w => adequate w false (f w false) && adequate w true (f w true)) widths_0_32.
+Definition all_flags (P : bool -> bool -> bool) : bool := P false false && P false true && P true false && P true true.
+
+Definition dispatch_adequate (f : N -> bool -> bool -> idec) : bool :=
+  forallb (fun w => all_flags (fun sm one => adequate w sm one (f w sm one))) widths_0_32.
